@@ -74,81 +74,121 @@ def stamp_of(now_ms):
     return S.stamp(now_ms)
 
 
+ADMIN = ("0", "1", "2", "4", "5", "A")
+
+
 class Peer:
-    """the counterparty: decides from the frames the connection writes what arrives when.
-    kinds: silent | periodic | burst | answer | prober | gap.  Common options:
-      answer: None | {"delay": ms, "flavour": right|wrong|missing|nonnum, "stop_after": k|None}
-    gap: at t0+start the peer sends an application frame numbered `k` too high; when it sees our ResendRequest
-      it replays the missing numbers as PossDup frames `pace` ms apart (optionally one SequenceReset-GapFill
-      covering two numbers; optionally ignoring the request: replay=False), meanwhile / afterwards it may send
-      live Heartbeats numbered beyond the gap (`noise` ms apart; not acceptable while the resend is awaited),
-      and after the replay it goes on with in-sequence Heartbeats every `pace` ms (`then`="heartbeat") or is silent.
-    Queue items carry seq = "auto" (the number the connection expects) or an explicit number."""
+    """the counterparty, with its OWN outbound counter: decides from the frames the connection writes what
+    arrives when, and numbers what it sends itself.
+
+    base kinds: silent | periodic | burst | answer | prober | gap; options common to all kinds:
+      answer: None | {"delay": ms, "flavour": right|wrong|missing|nonnum, "stop_after": k|None, "num": NUM}
+      extras: [[t_off_ms, ACTION], ...]  extra events at fixed times, whatever the base behaviour is
+      serve:  how our ResendRequest is served: "gapfill" (one SequenceReset-GapFill up to the peer's counter,
+              default) | "replay" (lost application frames again as PossDup, `pace` ms apart, the rest
+              gap-filled) | "never";  serve_delay: ms
+    NUM (numbering relation of a frame): "new" (the peer's next number) | "gap:k" (k numbers were lost on the
+      way: the frame arrives k too high) | "dup" (the previous frame again, PossDupFlag=Y: too low).
+    ACTION: {"op": "frame", "mtype", "body", "num": NUM} | {"op": "skip", "k"} |
+            {"op": "rr", "rel": "valid"|"high"|"zero"}  (a ResendRequest for numbers we did / never sent).
+    periodic: "nums": [NUM, ...] cycled over its frames.  gap: a frame `k` too high at t0+start (= "gap:k")."""
 
     def __init__(self, spec, t0):
         p = spec["peer"]
         self.p, self.h, self.t0 = p, spec["h"], t0
-        self.queue = []  # (due, order, mtype, body, seq)
+        self.queue = []  # (due, order, action)
         self.n = 0
         self.answered = 0
-        self.ni = spec["counters"][0]
+        self.pseq = spec["counters"][0]          # next number for a new frame
+        self.our_top = spec["counters"][1] - 1   # highest MsgSeqNum seen from the connection
+        self.sent = {}                           # seq -> (mtype, body) of what the peer has sent / lost
+        self.last = None
         self.horizon = t0 + spec["horizon"]
-        self.top = None     # highest number the peer has used so far (gap kind)
         k = p["kind"]
         if k == "periodic":
-            t = t0 + p["period"]
-            while t <= t0 + spec["horizon"]:
-                self._push(t, p.get("mtype", "0"), [(58, "tick")] if p.get("mtype", "0") != "0" else [])
+            t, i, nums = t0 + p["period"], 0, p.get("nums", ["new"])
+            while t <= self.horizon:
+                mt = p.get("mtype", "0")
+                self.frame(t, mt, [(58, "tick")] if mt != "0" else [], nums[i % len(nums)])
                 t += p["period"]
+                i += 1
         elif k == "burst":
             for i in range(p["n"]):
-                self._push(t0 + p["start"] + i * 125, p.get("mtype", "D"), [(11, f"b{i}")])
+                self.frame(t0 + p["start"] + i * 125, p.get("mtype", "D"), [(11, f"b{i}")])
         elif k == "prober":
-            t = t0 + p["period"]
-            i = 0
-            while t <= t0 + spec["horizon"]:
-                self._push(t, "1", [(112, f"PEER{i}")] if p.get("with_id", True) else [])
+            t, i, nums = t0 + p["period"], 0, p.get("nums", ["new"])
+            while t <= self.horizon:
+                self.frame(t, "1", [(112, f"PEER{i}")] if p.get("with_id", True) else [], nums[i % len(nums)])
                 t += p["period"]
                 i += 1
         elif k == "gap":
-            self.top = self.ni + p["k"]
-            self._push(t0 + p["start"], "D", [(11, "live")], seq=self.top)
-            if p.get("noise") and p.get("replay", True) is False:
+            self.frame(t0 + p["start"], "D", [(11, "live")], f"gap:{p['k']}")
+            if p.get("noise"):
                 t = t0 + p["start"] + p["noise"]
-                while t <= t0 + spec["horizon"]:
-                    self.top += 1
-                    self._push(t, "0", [], seq=self.top)
+                while t <= self.horizon:
+                    self.frame(t, "0", [])
                     t += p["noise"]
+        for off, act in p.get("extras", []):
+            self._push(t0 + off, dict(act))
 
-    def _push(self, due, mtype, body, seq="auto"):
+    def _push(self, due, action):
         self.n += 1
-        self.queue.append((due, self.n, mtype, body, seq))
+        self.queue.append((due, self.n, action))
         self.queue.sort(key=lambda q: (q[0], q[1]))
 
+    def frame(self, due, mtype, body, num="new"):
+        self._push(due, {"op": "frame", "mtype": mtype, "body": list(body), "num": num})
+
+    def emit(self, now, act):
+        """resolve an action at the moment it happens -> (mtype, body, seq) or None (nothing is sent)"""
+        op = act["op"]
+        if op == "skip":
+            self._lose(act["k"])
+            return None
+        if op == "rr":
+            b = {"valid": max(1, self.our_top - 1), "high": self.our_top + 1, "zero": 0}[act["rel"]]
+            act = {"op": "frame", "mtype": "2", "body": [(7, str(b)), (16, "0")], "num": "new"}
+        if op == "fill":
+            if self.pseq <= act["begin"]:
+                return None
+            return ("4", [(123, "Y"), (43, "Y"), (122, stamp_of(now)), (36, str(self.pseq))], act["begin"])
+        if op == "resend":
+            mt, body = self.sent[act["seq"]]
+            return (mt, [(43, "Y"), (122, stamp_of(now))] + list(body), act["seq"])
+        num = act.get("num", "new")
+        if num == "dup":
+            if self.last is None:
+                return None
+            seq, mt, body = self.last
+            return (mt, [(43, "Y"), (122, stamp_of(now))] + [f for f in body if f[0] not in (43, 122)], seq)
+        if num.startswith("gap:"):
+            self._lose(int(num[4:]))
+        seq = self.pseq
+        self.pseq += 1
+        self.sent[seq] = (act["mtype"], list(act["body"]))
+        self.last = (seq, act["mtype"], list(act["body"]))
+        return (act["mtype"], list(act["body"]), seq)
+
+    def _lose(self, k):
+        for _ in range(k):   # k application frames that never arrive
+            self.sent[self.pseq] = ("D", [(11, f"lost{self.pseq}")])
+            self.pseq += 1
+
     def saw_frame(self, now, mtype, fields):
-        if self.p["kind"] == "gap" and mtype == "2" and self.p.get("replay", True):
-            # serve the ResendRequest: replay BeginSeqNo .. everything sent so far
-            b = int(dict(fields)[7])
-            pace, t, n = self.p["pace"], now + self.p.get("first", self.p["pace"]), b
-            while n <= self.top:
-                if self.p.get("gapfill") and n == b + 1 and n + 1 <= self.top:
-                    self._push(t, "4", [(123, "Y"), (43, "Y"), (122, stamp_of(now)), (36, str(n + 2))], seq=n)
-                    n += 2
-                else:
-                    self._push(t, "D", [(43, "Y"), (122, stamp_of(now)), (11, f"r{n}")], seq=n)
-                    n += 1
-                t += pace
-            if self.p.get("then", "heartbeat") == "heartbeat":
-                while t <= self.horizon:
-                    self._push(t, "0", [])   # in sequence again: the number the connection expects
-                    t += pace
+        fd = dict(fields)
+        if fd.get(43) == "Y":
+            return  # a retransmission
+        if 34 in fd:
+            self.our_top = max(self.our_top, int(fd[34]))
+        if mtype == "2":
+            self._serve(now, int(fd[7]))
             return
         a = self.p.get("answer")
         if mtype == "1" and a:
             if a.get("stop_after") is not None and self.answered >= a["stop_after"]:
                 return
             self.answered += 1
-            tid = dict(fields).get(112, "0")
+            tid = fd.get(112, "0")
             fl = a.get("flavour", "right")
             if fl == "right":
                 body = [(112, tid)]
@@ -158,7 +198,41 @@ class Peer:
                 body = [(112, "abc")]
             else:
                 body = []
-            self._push(now + a["delay"], "0", body)
+            self.frame(now + a["delay"], "0", body, a.get("num", "new"))
+
+    def _serve(self, now, b):
+        mode = self.p.get("serve", "replay" if self.p["kind"] == "gap" else "gapfill")
+        if self.p.get("replay") is False:
+            mode = "never"
+        pace = self.p.get("pace", 125)
+        t = now + self.p.get("serve_delay", pace)
+        if mode == "never":
+            return
+        if mode == "gapfill":
+            self._push(t, {"op": "fill", "begin": b})
+            return
+        n = b
+        one_fill = self.p.get("gapfill")
+        while n < self.pseq:
+            mt = self.sent.get(n, ("0", []))[0]
+            if mt in ADMIN or (one_fill and n == b + 1 and n + 1 < self.pseq):
+                # administrative frames (and, with "gapfill", one pair of numbers) are gap-filled, not resent
+                m = n + 1
+                if one_fill and n == b + 1:
+                    m = n + 2
+                else:
+                    while m < self.pseq and self.sent.get(m, ("0", []))[0] in ADMIN:
+                        m += 1
+                self._push(t, {"op": "fillto", "begin": n, "to": m})
+                n = m
+            else:
+                self._push(t, {"op": "resend", "seq": n})
+                n += 1
+            t += pace
+        if self.p["kind"] == "gap" and self.p.get("then", "heartbeat") == "heartbeat":
+            while t <= self.horizon:
+                self.frame(t, "0", [])
+                t += pace
 
     def next_due(self):
         return self.queue[0][0] if self.queue else None
@@ -192,9 +266,16 @@ def run_scenario(impl: S.Impl, spec):
     while True:
         due = peer.next_due()
         if due is not None and (due < next_tick or (due == next_tick and spec["tie"] == "recv")):
-            now, _, mtype, body, seq = peer.pop()
+            now, _, act = peer.pop()
             if now > end:
                 break
+            if act["op"] == "fillto":
+                out = ("4", [(123, "Y"), (43, "Y"), (122, stamp_of(now)), (36, str(act["to"]))], act["begin"])
+            else:
+                out = peer.emit(now, act)
+            if out is None:
+                continue
+            mtype, body, seq = out
             ev = ("recv", now, S.inbound(cur, mtype, body, seq=seq, now_ms=now))
             kind = "recv"
         else:
@@ -262,6 +343,45 @@ def peers_for(h):
             out.append({"kind": "gap", "start": 250, "k": k, "pace": pace, "then": "heartbeat"})
         out.append({"kind": "gap", "start": H // 2 + 125 - (H // 2) % 125, "k": 3, "pace": pace, "then": "silent",
                     "gapfill": True})
+    # ---- numbering relations: every frame kind arrives expected / too high (gap) / too low (PossDup duplicate)
+    r125 = lambda x: max(125, x - x % 125)
+    for num in ("gap:1", "gap:3", "dup"):
+        for d in (125, r125(H // 2), H, max(125, 2 * H - 1125)):
+            for fl in ("right", "wrong", "missing"):
+                if fl != "right" and d != 125:
+                    continue
+                for serve in ("gapfill", "replay", "never"):
+                    if serve != "gapfill" and (fl != "right" or d not in (125, H)):
+                        continue
+                    out.append({"kind": "answer", "answer": {"delay": d, "flavour": fl, "num": num}, "serve": serve,
+                                "pace": r125(H // 2)})
+    for nums in (["new", "new", "gap:1"], ["gap:2", "new", "new", "new"], ["new", "dup"], ["new", "gap:1", "dup"]):
+        for per in (r125(H // 2), H, H + 125):
+            for mt in ("0", "D"):
+                out.append({"kind": "periodic", "period": per, "mtype": mt, "nums": nums})
+            out.append({"kind": "periodic", "period": per, "mtype": "0", "nums": nums,
+                        "answer": {"delay": 125, "flavour": "right"}, "serve": "replay", "pace": 125})
+        out.append({"kind": "prober", "period": r125(H // 2), "with_id": True, "nums": nums,
+                    "answer": {"delay": 125, "flavour": "right"}})
+    # ---- inbound ResendRequests (for numbers we sent / never sent), lost frames, stray frames: as extra events on
+    #      top of quiet-but-responsive, chatty and silent peers
+    bases = [{"kind": "silent"}, {"kind": "answer", "answer": {"delay": 125, "flavour": "right"}},
+             {"kind": "answer", "answer": {"delay": H, "flavour": "right"}},
+             {"kind": "periodic", "period": H, "mtype": "0", "answer": {"delay": 250, "flavour": "right"}},
+             {"kind": "periodic", "period": r125(H // 2), "mtype": "D"},
+             {"kind": "gap", "start": 250, "k": 2, "pace": r125(H // 2), "then": "heartbeat",
+              "answer": {"delay": 125, "flavour": "right"}}]
+    acts = [{"op": "rr", "rel": "valid"}, {"op": "rr", "rel": "high"}, {"op": "rr", "rel": "zero"}, {"op": "skip", "k": 2},
+            {"op": "frame", "mtype": "0", "body": [], "num": "gap:2"}, {"op": "frame", "mtype": "1", "body": [[112, "X"]], "num": "gap:1"},
+            {"op": "frame", "mtype": "D", "body": [[11, "x"]], "num": "dup"}]
+    for base in bases:
+        for act in acts:
+            for off in (250, r125(H // 2) + 125, H + 250, 2 * H + 375):
+                b = json.loads(json.dumps(base))
+                b["extras"] = [[off, act]]
+                if act["op"] == "rr" and act["rel"] == "valid":
+                    b["extras"] = [[off, act], [off + H + 125, {"op": "rr", "rel": "high"}]]
+                out.append(b)
     out.append({"kind": "gap", "start": 250, "k": 2, "pace": H, "replay": False})                      # request ignored
     out.append({"kind": "gap", "start": 250, "k": 2, "pace": H, "replay": False, "noise": max(125, H // 2)})  # … but chatty
     return out
@@ -332,7 +452,7 @@ def correspondence(ctx):
     impl = S.Impl()
     drv = C.Driver()
     try:
-        specs = corpus_specs() + all_specs(ctx.rng, ctx.n(600, 8000))
+        specs = corpus_specs() + all_specs(ctx.rng, ctx.n(800, 10000))
         runs, lines, index = [], [], []
         for si, spec in enumerate(specs):
             line = run_scenario(impl, spec)
@@ -381,7 +501,11 @@ def correspondence(ctx):
                 "echo delayed 0..2 intervals (+); wrong / missing / non-numeric TestReqID; peer probing us; a sequence gap "
                 "followed by the PossDup / GapFill replay at paces 0.4h..2.5h (RESENDREQ_AWAITING in between), the "
                 "ResendRequest ignored with and without too-high chatter; connections starting in RESENDREQ_AWAITING / "
-                "RESENDREQ_HANDLING / RECV_SEQNUM_TOO_HIGH} x {tick gap "
+                "RESENDREQ_HANDLING / RECV_SEQNUM_TOO_HIGH; numbering relation of every frame kind (expected / gap = "
+                "too high / PossDup duplicate = too low) for echoes, Heartbeats, TestRequests, application frames; "
+                "inbound ResendRequests (valid / for never-sent numbers), lost frames and stray frames as extra events on "
+                "quiet-but-responsive, chatty and silent peers; the peer keeps its own counter and serves our "
+                "ResendRequests by gap fill / replay / never} x {tick gap "
                 "patterns 1000..1875 ms} x {phase of the grid relative to the last frame} x {sub-second offset of t0, "
                 "tick-or-frame first on ties, role, counters, journal shape}; every event of every scenario is one "
                 "evaluation (real coroutine vs. model from the same pre-state, effects with SendingTime + full "
@@ -410,6 +534,10 @@ def judge(spec, line):
     probe_due_from = t0    # start of the current "nothing received, none outstanding" period
     outstanding = None     # (id:str, t_sent) of the TestRequest not yet echoed
     attempted = False      # a probe was due but send_test_req() raised
+    # the connection has asked for a resend (it wrote a ResendRequest) and the replay has not yet reached the number
+    # that revealed the gap: while that lasts it is not expected to probe.  Tracked from the frames alone.
+    awaiting = spec.get("max_resend") if spec.get("state") == 12 else None
+    start_stuck = spec.get("state") in (10, 11)   # scenario starts in a state the code only passes through
     up = True
     for k, s in enumerate(line):
         t, eff = s["t"], s["eff"]
@@ -427,7 +555,7 @@ def judge(spec, line):
                 yield ("C12-second-testrequest", "a TestRequest was sent while one is outstanding", {"step": k, "t": t - t0})
             # sentence 1: TestRequest by a + h + delta, delta = distance to the next tick: the first tick at or after
             # a + h (which comes no later than a + h + delta) must find the TestRequest sent or send it
-            if s["a_pre"].state == 17 and not outstanding and not treqs and not attempted \
+            if awaiting is None and not start_stuck and not outstanding and not treqs and not attempted \
                     and not any(e.startswith("R=") for e in eff) and t >= probe_due_from + H:
                 yield ("C12-testrequest-late", f"nothing received since {probe_due_from - t0} ms, none outstanding, "
                        f"tick at {t - t0} ms >= h later and still no TestRequest", {"step": k})
@@ -446,7 +574,7 @@ def judge(spec, line):
                 if outstanding is None:
                     # legitimate only as "nothing valid for 2h" (e.g. the TestRequest could not be sent)
                     # … or the connection is not ACTIVE (awaiting / serving a resend): it never probes there
-                    if t - last_arrival <= 2 * H or (s["a_pre"].state == 17 and not attempted):
+                    if t - last_arrival <= 2 * H or (awaiting is None and not start_stuck and not attempted):
                         yield ("C12-disconnect-nothing-outstanding", "the watchdog disconnected although no TestRequest "
                                "was unanswered", {"step": k, "t": t - t0})
                 elif t - outstanding[1] <= 2 * H - 1000:
@@ -471,7 +599,14 @@ def judge(spec, line):
             fd = dict(fields)
             # "valid traffic" = a frame the connection can accept: it carries exactly the expected MsgSeqNum
             accepted = fd.get(34) == str(s["a_pre"].next_in)
-            if mtype == "1":
+            too_low = int(fd[34]) < s["a_pre"].next_in      # a duplicate: not this property's business (C04 / C11)
+            rr = [f for f in fr if f[0] == "2"]             # our ResendRequest when the frame revealed a gap
+            if rr and awaiting is None:
+                awaiting = int(fd[34])
+            fr = [f for f in fr if f[0] != "2"]
+            if too_low:
+                pass
+            elif mtype == "1":
                 hb = [f for f in fr if f[0] == "0"]
                 want = fd.get(112, "0")
                 if len(fr) != 1 or len(hb) != 1 or dict(hb[0][1]).get(112) != want:
@@ -488,7 +623,8 @@ def judge(spec, line):
                     if s["a_post"].test_req_id is not None:
                         yield ("C12-echo-does-not-clear", "the right echo left the TestReqID outstanding", {"step": k})
                     outstanding = None
-                    probe_due_from = t
+                    if accepted:
+                        probe_due_from = t
                 else:
                     lo = [f for f in fr if f[0] == "5"]
                     if not (len(lo) == 1 and dict(lo[0][1]).get(58) == WRONG_TEXT and "CS" in eff and "DC" in eff
@@ -503,6 +639,10 @@ def judge(spec, line):
                            {"step": k})
             elif disconnected and accepted:
                 yield ("C12-valid-frame-disconnects", "a valid in-sequence frame caused a disconnect", {"step": k})
+            if accepted and awaiting is not None:
+                reached = int(fd[36]) - 1 if mtype == "4" and fd.get(36, "").isdigit() else int(fd[34])
+                if reached >= awaiting:
+                    awaiting = None
             if up and s["a_post"].state > 3 and accepted:
                 last_arrival = t
                 attempted = False if s["a_post"].test_req_id is None else attempted
@@ -514,6 +654,7 @@ def judge(spec, line):
         up = s["a_post"].state > 3 and s["a_post"].sock
         if not up:
             outstanding = None
+            awaiting = None
 
 
 def judge_all(runs, limit_per_sig=3):
